@@ -90,6 +90,8 @@ func main() {
 		names = append(names, "curve/"+c.name)
 		bodies["curve/"+c.name] = func() { c.run(r, "curve/"+c.name) }
 	}
+	names = append(names, "race")
+	bodies["race"] = func() { r.RunRacePass("C13") }
 	r.Parallel(names, func(g string) { bodies[g]() })
 	r.Finish()
 }
